@@ -539,6 +539,13 @@ Definition tree_sequence_gate (t : tables) : res Z :=
   | None => do t' <- build_index t; check t'
   end.
 
+(* tskit.load / TreeSequence.load: tsk_treeseq_load = tsk_table_collection_load followed by
+   tsk_treeseq_init(TSK_TAKE_OWNERSHIP) — no TSK_TS_INIT_BUILD_INDEXES, so a file without an
+   index reaches check_index_integrity and is rejected with TSK_ERR_TABLES_NOT_INDEXED.  The
+   kastore / column-length layer of tsk_table_collection_load is C05/C10's model; here the loaded
+   tables are the input. *)
+Definition load_gate (t : tables) : res Z := check t.
+
 Definition res_eqb (a b : res Z) : bool :=
   match a, b with
   | Ok x, Ok y => x =? y
